@@ -643,3 +643,16 @@ for _nm, _fn, _g in (('map', _lz_map, True), ('filter', _lz_filter, True), ('fil
                      ('position', _lz_position, True), ('any', _lz_any, True), ('next', _lz_next, False), ('take', _lz_take, False), ('take_while', _lz_take_while, True),
                      ('map_while', _lz_map_while, True), ('enumerate', _lz_enumerate, False), ('skip', _lz_skip, False)):
     _wrap_lazy(_nm, _fn, _g)
+
+def _cow_chars(c):
+    d = deref_all(c)
+    while isinstance(d, Adt) and d.fields: d = deref_all(d.fields[0])
+    return list(d.chars)
+reg(r"<std::string::String as std::convert::From<std::borrow::Cow<'_, str>>>::from", lambda it, c: SStr(_cow_chars(c)))
+reg(r"<std::borrow::Cow<'_, str> as std::convert::From<(&str|&'_ str|std::string::String|&std::string::String)>>::from", lambda it, s: Adt(0 if isinstance(s, Ref) else 1, [s]))
+reg(r"<std::borrow::Cow<'_, str> as std::convert::Into<std::string::String>>::into", lambda it, c: SStr(_cow_chars(c)))
+reg(r"std::borrow::Cow::<'_, str>::(is_borrowed|is_owned)", lambda it, c: (deref_all(c).variant == 0))
+
+# `impl Into<Vec<T>>` arguments in generic position: the MIR keeps the opaque name; a Vec goes into a Vec / ThinVec unchanged
+reg(r'<impl Into<.*> as std::convert::Into<(std::vec::Vec|thin_vec::ThinVec)<.*>>>::into', lambda it, v: v)
+reg(r'<(std::vec::Vec|thin_vec::ThinVec)<(.*)> as std::convert::(Into|From)<(std::vec::Vec|thin_vec::ThinVec)<.*>>>::(into|from)', lambda it, v: v)
